@@ -208,6 +208,10 @@ class Ctx:
             self.mul_apps[k] = (t, x, y)
             self.axioms.append(z3.And(t >= 0, t <= ha * hb))
             self.setr(t, 0, ha * hb)
+            if x.get_id() == y.get_id():
+                # an integer square is 0 or 1 modulo 4 (LLVM's known-bits analysis uses exactly this)
+                q4, r4 = self.split(t, 4)
+                self.axioms.append(z3.IntVal(r4) <= 1 if isinstance(r4, int) else r4 <= 1)
         return self.mul_apps[k][0]
 
     def split(self, t, n):
